@@ -11,15 +11,18 @@ TITLE = 'TLS interception issues a valid per-host cert and never trusts a bad up
 RULE = ('one run = one CONNECT to a drawn host (DNS names, IPv4 and bracketed IPv6 literals) through the real executor with '
         'TLS interception configured (test CA made with the openssl binary, proxy.py\'s own certificate generation run for '
         'real through its openssl subprocess, cold or warm certificate cache); the origin terminates TLS (real OpenSSL over '
-        'the simulated network) with a drawn certificate situation (trusted, self-signed, wrong name, expired), both '
+        'the simulated network) with a drawn certificate situation (trusted, self-signed, wrong name, expired, unusual subject), both '
         'settings of --insecure-tls-interception and of a per-request opt-out plugin; the client runs a *verifying* TLS '
         'client (trust = the proxy CA only, server_hostname = the CONNECT host) and exchanges 1-2 generated requests '
         'inside it; TLS records are segmented and partially written like any other bytes (drawn socket capacities, '
-        'short writes / EAGAIN); non-trivial = the origin certificate is bad, or the host is a literal, or records were '
+        'short writes / EAGAIN); in runs with a second CONNECT host one openssl invocation of the first host\'s certificate '
+        'generation may time out (injected at the subprocess seam of common/pki.py): that tunnel must fail closed and the '
+        'second host must still be served; non-trivial = the origin certificate is bad, or the host is a literal, or records were '
         'segmented / partially written, or the opt-out is used; distinct = distinct event-log digests')
 PROBES = ['second_host', 'trusted_origin', 'selfsigned_origin', 'wrongname_origin', 'expired_origin', 'insecure_switch', 'opt_out',
           'ip_literal_host', 'ipv6_literal_host', 'cold_cache', 'warm_cache', 'second_request', 'request_body',
-          'client_verified_leaf', 'bad_origin_refused', 'partial_tls_write', 'want_write_retry', 'large_response', 'long_host_name', 'odd_subject_origin']
+          'client_verified_leaf', 'bad_origin_refused', 'partial_tls_write', 'want_write_retry', 'large_response', 'long_host_name', 'odd_subject_origin',
+          'openssl_timeout', 'failed_generation_closed_tunnel']
 COMPONENTS = {
     'real': ['proxy/http/proxy/server.py (intercept, wrap_server, wrap_client, certificate generation)',
              'proxy/core/connection/server.py (wrap)', 'proxy/core/connection/client.py (wrap)', 'proxy/common/pki.py + the '
@@ -27,7 +30,8 @@ COMPONENTS = {
              'proxy/http/handler.py', 'proxy/core/work/threadless.py', 'proxy/http/parser/*'],
     'stub': ['kernel (TLS records travel over simulated sockets: sim/tls.py SimTLSSocket = real SSLObject over MemoryBIO, one '
              'record per read, SSLWantWriteError on an incompletely written record)', 'TLS client and TLS origin (scripted '
-             'peers around real SSLObjects)', 'test PKI'],
+             'peers around real SSLObjects)', 'test PKI', 'HttpProxyPlugin.lock (the simulator\'s SimLock instead of '
+             'threading.Lock)', 'subprocess as seen by proxy/common/pki.py (pass-through shim; injects TimeoutExpired)'],
 }
 ASSUMPTIONS = ['OpenSSL\'s certificate-validity clock is the real clock ("expired" = notAfter in the real past)',
                'the proxy\'s receive buffers are left at their defaults (a receive buffer smaller than a TLS record would leave '
@@ -47,6 +51,44 @@ HOSTS = [('secure.example', '10.0.7.1', 'name'), ('other.example', '10.0.7.2', '
          # a neighbour of the IPv6 literal above (same up to the last group): only ever the second host of a run
          ('[2001:db8::8]', '2001:db8::8', 'ipv6')]
 _px: Dict[str, Any] = {}
+# fault seam: proxy/common/pki.py reaches the openssl binary through `subprocess.Popen(...).communicate(timeout=...)`; the shim
+# below stands in for the `subprocess` name of that module only.  Armed, it lets the drawn one of the (up to three) openssl
+# invocations for the first host run into its time-out (the child is not started); it then disarms itself: the fault has stopped.
+_ossl: Dict[str, Any] = {'armed': None, 'world': None, 'calls': 0, 'fired': 0}
+
+
+class _SubprocessShim:
+    def __init__(self, real: Any) -> None:
+        self._real = real
+        self.PIPE = real.PIPE
+        self.TimeoutExpired = real.TimeoutExpired
+
+    def __getattr__(self, name: str) -> Any:
+        return getattr(self._real, name)
+
+    def Popen(self, command: Any, **kw: Any) -> Any:
+        a = _ossl['armed']
+        if a is not None and any(a['needle'] in str(x) for x in command):
+            k = _ossl['calls']
+            _ossl['calls'] += 1
+            if k == a['step']:
+                _ossl['armed'] = None
+                _ossl['fired'] += 1
+                w = _ossl['world']
+                w.stats['fault:openssl_timeout'] += 1
+                w.ev('fault', 'openssl_timeout', k)
+                return _TimedOutChild(self._real, command)
+        return self._real.Popen(command, **kw)
+
+
+class _TimedOutChild:
+    returncode = None
+
+    def __init__(self, real: Any, command: Any) -> None:
+        self._real, self._command = real, command
+
+    def communicate(self, input: Any = None, timeout: Any = None) -> Any:
+        raise self._real.TimeoutExpired(self._command, timeout)
 
 
 def setup_worker(job: Dict[str, Any]) -> None:
@@ -57,6 +99,10 @@ def setup_worker(job: Dict[str, Any]) -> None:
     for host, _, _ in HOSTS:
         for kind in ('good', 'selfsigned', 'wrongname', 'expired', 'oddsubject', 'emptysubject'):
             _px[(host, kind)] = origin_cert(px, host.strip('[]'), kind)
+    import subprocess
+    import proxy.common.pki as pki
+    if not isinstance(pki.subprocess, _SubprocessShim):
+        pki.subprocess = _SubprocessShim(subprocess)   # type: ignore[assignment]
 
 
 def run_one(tape: Any, cfg: Dict[str, Any], forbid: FrozenSet[str] = frozenset()) -> Result:
@@ -97,6 +143,16 @@ def run_one(tape: Any, cfg: Dict[str, Any], forbid: FrozenSet[str] = frozenset()
         second_host = (not opt_out) and g.feature('second_host', 0.3)
         if second_host:
             cold = True         # both hosts' certificates are then generated within this run, whatever ran before
+        # fault: one openssl invocation of the first host's certificate generation times out (second CONNECT then shows whether
+        # the proxy still serves other hosts afterwards); placed inside the operation that holds the generation lock
+        _ossl.update(armed=None, world=w, calls=0, fired=0)
+        # the process-wide certificate-generation lock becomes a lock the scheduler owns (fresh per run: the class attribute
+        # outlives a run), so that waiting for it is an event of the simulation and not a real thread parked for ever
+        from ..mp import SimLock
+        from proxy.http.proxy.server import HttpProxyPlugin
+        HttpProxyPlugin.lock = SimLock()    # type: ignore[assignment]
+        if second_host and g.feature('openssl_timeout', 0.35):
+            _ossl['armed'] = {'needle': os.sep + bare + '.', 'step': tape.draw(3, 'openssl-step')}
         if insecure:
             w.probe('insecure_switch')
         if opt_out:
@@ -194,6 +250,10 @@ def run_one(tape: Any, cfg: Dict[str, Any], forbid: FrozenSet[str] = frozenset()
             cl2.connect_fn = h.connector()
         w.settle(2.0, 300.0)
         scen.executor_check(w, h)
+        gen_failed = bool(_ossl['fired'])
+        _ossl.update(armed=None, world=None)
+        if gen_failed:
+            w.probe('openssl_timeout')
         if cold:
             shutil.rmtree(certdir, ignore_errors=True)
 
@@ -205,7 +265,18 @@ def run_one(tape: Any, cfg: Dict[str, Any], forbid: FrozenSet[str] = frozenset()
             orx = bytes(org.conns[0].rx) if org.conns else b''
             ct = cl.tls
             ack = getattr(cl, 'ack', b'')
-            if not ack.startswith(b'HTTP/1.1 200'):
+            if gen_failed:
+                # injected: certificate generation for this host timed out.  Narrow relaxation: this one tunnel may fail, but it
+                # must fail closed (nothing relayed, no client session, connection closed); everything else is checked as usual
+                if orx:
+                    w.fail('data_sent_without_client_session', sig, 'certificate generation timed out, yet the origin received %r' % orx[:80])
+                elif ct is not None and ct.done:
+                    w.fail('client_session_without_certificate', sig, 'client completed TLS although certificate generation timed out')
+                elif not (cl.saw_eof or cl.saw_reset):
+                    w.fail('tunnel_left_open', sig, 'certificate generation timed out: the tunnel was not closed')
+                else:
+                    w.probe('failed_generation_closed_tunnel')
+            elif not ack.startswith(b'HTTP/1.1 200'):
                 w.fail('no_tunnel_ack', sig, 'CONNECT was not acknowledged: %r' % ack[:80])
 
             elif opt_out:
@@ -272,7 +343,7 @@ def run_one(tape: Any, cfg: Dict[str, Any], forbid: FrozenSet[str] = frozenset()
         res.states = {hash((hkind, situation, insecure, opt_out, cold)) & 0xffffffff}
         res.scenario = {'host': host, 'origin_cert': situation, 'insecure': insecure, 'opt_out': opt_out, 'cold_cache': cold,
                         'caps': caps, 'requests': [r.decode('latin-1')[:200] for r, _ in reqs], 'resp_sizes': [len(r) for r in resps],
-                        'faults': dict(w.fault_kinds)}
+                        'faults': dict(w.fault_kinds), 'openssl_timeout': gen_failed}
         return scen.end_run(w, h, res)
 
 
